@@ -22,6 +22,10 @@ Definition sf_of_bits (b : Z) : spec_float :=
 
 Definition f_of_bits (b : Z) : float := SF2Prim (sf_of_bits b).
 
+(* bit patterns written as primitive-integer literals (fast to parse): bp i = i, bn i = i + 2^63 (sign bit set) *)
+Definition bp (i : Uint63.int) : Z := Uint63.to_Z i.
+Definition bn (i : Uint63.int) : Z := Uint63.to_Z i + two63z.
+
 Definition bits_of_sf (x : spec_float) : Z :=
   let sg (s : bool) := if s then two63z else 0 in
   match x with
@@ -84,6 +88,10 @@ Definition run_slotF (prior : Z) (rs : list Z) (stride : nat) : list (list Z) :=
 
 Definition run_sampleF (prior : Z) (rs : list Z) (g : Z) : list Z :=
   map bits_of_f (fsample_args (fslot_run (f_of_bits prior) (map f_of_bits rs)) (f_of_bits g)).
+
+(* sample() after k updates, for several (k, gamma draw) pairs *)
+Definition run_samplesF (prior : Z) (rs : list Z) (ks : list (nat * Z)) : list (list Z) :=
+  map (fun kg => run_sampleF prior (firstn (fst kg) rs) (snd kg)) ks.
 
 (* the quotient inside get_relative_distance (rosomaxa/src/hyper/dynamic_selective.rs): (a - b).abs() / a.abs().max(b.abs()),
    for finite non-NaN operands (f64::max = the larger one) *)
